@@ -51,3 +51,12 @@ Theorem block_follows_evaluate_docstring h :
   contains "    def _evaluate(self, t" (seg h 6) = true /\
   ends_with ("        """""""  ++ nl_s) (seg h 6) = true /\ seg h 7 = "".
 Proof. destruct h; repeat split; vm_compute; reflexivity. Qed.
+
+(* KEPT FINDING (reviewer2-E): "inserted verbatim" — textwrap.indent prefixes every non-blank line, also a continuation line
+   INSIDE a multi-line string literal of verbatim code, whose value therefore changes:  self.s = """a\n\nb"""  becomes a literal
+   whose last line is `        b` *)
+Definition tq : string := String dq (String dq (String dq "")).
+Theorem indent_inside_string_literal_refuted :
+  indent eq_prefix ("self.s = " ++ tq ++ "a" ++ nl_s ++ nl_s ++ "b" ++ tq) =
+  "        self.s = " ++ tq ++ "a" ++ nl_s ++ nl_s ++ "        b" ++ tq.
+Proof. vm_compute. reflexivity. Qed.
